@@ -434,6 +434,17 @@ def _cache_codes(R):
     return out
 
 
+def _locks_itself(fn):
+    """does set_max_size already run under the cache lock (D26 repaired)?  Then the diagnostic
+    re-run with a harness-side lock would only deadlock on the non-reentrant lock."""
+    import inspect
+
+    try:
+        return "self.lock" in inspect.getsource(fn)
+    except (OSError, TypeError):
+        return True
+
+
 def run_conc(case, _serialize_setmax=False):
     import dns.resolver as R
 
@@ -556,7 +567,7 @@ def run_conc(case, _serialize_setmax=False):
                     if b[2][0] == "put" and not (b[1] < a[0] or a[1] < b[0]):
                         conc_setmax = True
             key = "results" if tried == 0 else "final-state"
-            if conc_setmax and not _serialize_setmax:
+            if conc_setmax and not _serialize_setmax and not _locks_itself(saved_setmax):
                 # root-cause bucketing: does the same case linearize when set_max_size is
                 # made to run under the cache lock (harness-side wrapper)?  Then the cause is
                 # that LRUCache.set_max_size does not take the lock, and nothing else.
